@@ -250,8 +250,8 @@ static void query_and_check(vh_ctx_t * v, const entry_t * e_in) {
 }
 
 /* Source buffers of explicit-length pushes are exact-size everywhere in the malloc configuration.  In the static-heap
- * configuration the pinned tree reads one byte past such a text when storing it (scpiheap_strndup copies the
- * terminator position); so that this one defect is attributed to one phase ("exactsrc") instead of aborting every
+ * configuration the tree before repo commit 4fb12fa read one byte past such a text when storing it (scpiheap_strndup
+ * copied the terminator position); so that such a defect is attributed to one phase ("exactsrc") instead of aborting every
  * case of the configuration, the other phases append one readable sentinel byte (a double quote) there. */
 static int exact_src = !VH_INFO_HEAP;
 
